@@ -258,4 +258,54 @@ func (p *Prog) resolveRoles() {
 			}
 		}
 	}
+	// generic resolution by signature: a function of the baseline list that no longer exists
+	// is looked for among the functions of the same package that are NOT in the baseline list
+	// and have the same receiver type and the same signature; if exactly one, it is the renamed
+	// function (a pure rename of a helper, gate or anchor does not unhinge the rule tables).
+	sigOf := sigString
+	byPkgNew := map[string][]*Func{}
+	for _, f := range p.NonTestFuncs() {
+		if !baselineFuncs[f.Key] && baselineSig[f.Key] == "" {
+			byPkgNew[f.PkgShort()] = append(byPkgNew[f.PkgShort()], f)
+		}
+	}
+	for key, bs := range baselineSig {
+		if p.Funcs[key] != nil || bs == "" {
+			continue
+		}
+		pkgShort := pkgOfKey(key)
+		var cands []*Func
+		for _, f := range byPkgNew[pkgShort] {
+			if _, taken := aliasActualToCanon[f.Key]; taken {
+				continue
+			}
+			if sigOf(f) == bs {
+				cands = append(cands, f)
+			}
+		}
+		if len(cands) == 1 {
+			f := cands[0]
+			aliasActualToCanon[f.Key] = key
+			p.Funcs[key] = f
+			p.RoleNotes = append(p.RoleNotes, "function "+key+" not found by name; resolved by signature to the new function "+f.Key)
+			f.Key = key
+		}
+	}
+}
+
+// pkgOfKey extracts the short package path from a function key such as
+// "(*executor.WALFileType).SyncWAL" or "utils/io.TimeToIndex".
+func pkgOfKey(key string) string {
+	k := key
+	if strings.HasPrefix(k, "(") {
+		k = strings.TrimPrefix(k, "(")
+		k = strings.TrimPrefix(k, "*")
+		if i := strings.Index(k, ")"); i >= 0 {
+			k = k[:i]
+		}
+	}
+	if i := strings.LastIndex(k, "."); i >= 0 {
+		return k[:i]
+	}
+	return k
 }
